@@ -14,19 +14,28 @@ DRIVER = "drv_persist"
 HARNESS_BIN = "persist"
 HARNESS_FEATURES = ""
 PARTIAL = [
-    "crash_sound_core: proved for the core model (input + normal queries, ordered reads, dynamic dependency sets): "
-    "every image of the store between two logical write batches of a run satisfies the C01 invariant, hence (C01) the "
-    "engine reopened on it answers every query with the from-scratch value for the inputs of the last session in the "
-    "prefix. For the full model (firewall / projection / external nodes, backward projection) the same statement is "
-    "refuted as-is by known findings F1 and F14 exactly as without a crash, and is not proved for the repaired "
-    "configuration; it is covered by the correspondence (model `crash L` vs the real engine reopened on the first p "
-    "physical commits) and the from-scratch oracle.",
+    "crash_sound_core is proved in full for the CORE model (input + normal queries, ordered reads, dynamic dependency "
+    "sets): every image of the store between two logical write batches of any history — including the images in the "
+    "middle of a query, with the dirty edges of keys still in progress as the store still has them — satisfies the C01 "
+    "invariant, shows the inputs of a prefix of the history, and the engine reopened on it answers every query with "
+    "the from-scratch value for those inputs.  For the FULL model (firewall / projection / external nodes, backward "
+    "projection) the same statement is refuted as-is by known findings F1 and F14 exactly as without a crash (the "
+    "check excuses a wrong value after a crash only if a never-crashed engine driven to a point of the same epoch "
+    "answers identically, or a known-finding toggle of the model repairs it) and is not proved for the repaired "
+    "configuration; there it is covered by the correspondence (model `crash L` vs the real engine reopened on the "
+    "first p physical commits, every p) and the from-scratch oracle.",
     "prefix_is_reachable: the batch of a publication is defined as the difference of the persistent images before "
-    "and after it; that the code's batches have exactly these boundaries and contents is tied by the correspondence.",
-    "sequential histories only (DESIGN F8: a session opened while readers are still publishing gets a lower epoch "
-    "than reader batches created later but published earlier; handled with F5 by the C04 check).",
+    "and after it; that the code's batches have exactly these boundaries is tied by the correspondence (`crash L` "
+    "addresses the model's L-th image; batch counts at every shutdown are compared).",
+    "prefix_atomic is C10's theorem about the write-behind model restated; it is not composed with the engine model in "
+    "one transition system (the composition used here: sequential history => batches are created, filled and submitted "
+    "one at a time, so epoch order = publication order).",
+    "sequential histories only (finding F8: a session opened while readers are still publishing gets a lower epoch "
+    "than reader batches created later but published earlier; reproduced by the C07 check, fixed by the F5 reordering).",
+    "cases with external inputs are exercised by C07 only (after a crash the environment is not rolled back).",
     "what RocksDB / Fjall actually retain after kill -9 is outside the model (assumed: a prefix of the committed write "
-    "batches, each atomically); the thorough tier samples it on RocksDB.",
+    "batches, each atomically); the thorough tier samples it on RocksDB (WAL off: usually the state of the last clean "
+    "shutdown).",
 ]
 ASSUMPTIONS = base.ASSUMPTIONS + [
     "the backing store is atomic per physical commit and keeps a prefix of the commits after a crash (C11 covers the "
@@ -39,16 +48,13 @@ pre = base.pre
 
 
 def run(ctx):
-    res, an, reps = base.collect(ctx, "c08", 16, 420)
+    res, an, reps = base.collect(ctx, "c08", 40, 1100)
     for r in reps:
         for f in r["oracle_failures"]:
             if f["sig"] == "C08:value-same-as-never-crashed":
                 continue   # the engine answers the same without any crash: C01's findings (F1 / F14), counted in the distribution
             res.oracle_failures.append(dict(f))
     # attribution of crash-specific value failures (DESIGN §2.4): a known-finding toggle repairs the whole case
-    for a in an:
-        for text, rec in a["fail_by_case"].items():
-            pass
     for f in res.oracle_failures:
         if f["sig"] in ("C08:value", "C08:value-at-full-log"):
             who = attribute(ctx, f["case"])
